@@ -123,6 +123,8 @@ type vfStore struct {
 	// FailAt, if set, may fail a ReadAt/WriteAt on (path, offset).
 	FailAt func(path string, off int64, n int, write bool) error
 	// OpenErr, CmdErr, ListErr: injected handler results (nil = normal behaviour).
+	// CmdDelay, if set, runs at the start of every Filecmd call (a slow metadata operation)
+	CmdDelay func(method string)
 	// CloseHook, if set, runs inside Close of a handler object, after the object has been marked closed and before
 	// Close returns (a slow Close: it may block).
 	CloseHook func(path string)
@@ -495,6 +497,9 @@ func (h vfHBase) Filewrite(r *Request) (io.WriterAt, error) {
 func (h vfHBase) Filecmd(r *Request) error {
 	s := h.s
 	r = s.req(r)
+	if s.CmdDelay != nil {
+		s.CmdDelay(r.Method)
+	}
 	s.record(vfCall{Iface: "FileCmd", Method: r.Method, Path: r.Filepath, Target: r.Target, Flags: r.Flags, Attrs: append([]byte(nil), r.Attrs...), AttrView: vfAttrView(r)})
 	if s.CmdErr != nil {
 		if err := s.CmdErr(r.Method, r.Filepath); err != nil {
